@@ -41,6 +41,11 @@ impl SpanLine {
     }
 
     #[inline]
+    pub fn is_sampled(&self) -> bool {
+        self.is_sampled
+    }
+
+    #[inline]
     pub fn start_span(&mut self, name: impl Into<Cow<'static, str>>) -> Option<LocalSpanHandle> {
         if !self.is_sampled {
             return None;
